@@ -840,7 +840,13 @@ impl LinkRelay<OutputHandle> {
     ) -> Result<(), mpsc::error::SendError<LinkFrame>> {
         match self {
             LinkRelay::Sender { tx, .. } => {
+                let closed = detach.closed;
                 tx.send(LinkFrame::Detach(detach)).await?;
+                if closed {
+                    // The remote terminus is gone and with it the state of the unsettled
+                    // deliveries: no outcome will ever arrive for them
+                    self.abandon_outcome_waiters();
+                }
             }
             LinkRelay::Receiver { tx, .. } => {
                 tx.send(LinkFrame::Detach(detach)).await?;
